@@ -68,7 +68,7 @@ func genericRunViolations(pfx string, r *simrt.Result, vl *vlist) {
 func init() {
 	Props["C01"] = &Scenario{
 		Gen: func(d *Draw) Case {
-			opts := ProgOpts{Kinds: []string{"seq", "xor", "and", "or", "loop", "sub", "condtask"}, MaxDepth: 3, MaxTasks: 12, OrEarlyEnd: true}
+			opts := ProgOpts{Kinds: []string{"seq", "xor", "and", "or", "loop", "sub", "condtask"}, MaxDepth: 3, MaxTasks: 12, OrEarlyEnd: true, Throws: true}
 			// swarm: each run enables a random subset of composite kinds
 			var kinds []string
 			for _, k := range opts.Kinds {
